@@ -750,6 +750,7 @@ class AASDataChecker(DataChecker):
         :param expected_value: expected Qualifier object
         :return:
         """
+        self._check_has_semantics_equal(object_, expected_value)
         self.check_attribute_equal(object_, 'type', expected_value.type)
         self.check_attribute_equal(object_, 'value_type', expected_value.value_type)
         self.check_attribute_equal(object_, 'value', expected_value.value)
